@@ -24,7 +24,7 @@ PROPERTIES = {
     },
     "C06": {
         "contracts": [axes.AxisUnion, axes.AxisIntersection, axes.CommonAxis, align.GetAlignedAxes, align.Align,
-                      (align.ReindexAxis, r"method_None"), dataset.AlignDataset],
+                      (align.ReindexAxis, r"method_None"), dataset.AlignDataset, axes.UnionLabelPrecision],
         "level": "other",
         "min_obligations": 2000,
         "explanation": "proved: direction / uniqueness / order of Axis.union and intersection, frame and sort of _get_aligned_axes (real bodies, exact identity), align's composition over the callee contracts (labels, data, NaN fill, dims, forwarding, inputs untouched), reindex_axis. bounded stand-in (exhaustive, lengths <= 3): the set-inclusion clauses of union / intersection / _common_axis, on which the 'set union / intersection' sentence of the property rests.",
@@ -46,7 +46,7 @@ PROPERTIES = {
                       (axes.AxisUnion, r"-ff-|-if-"), axes.CommonAxis,
                       # Operation is proved AGAINST reindex_axis' contract (a callee): a change inside reindex_axis is noticed only by
                       # that contract's own obligations, so they are part of this check (the fill cases; integer axes with float labels)
-                      (align.ReindexAxis, r"method_None")],
+                      (align.ReindexAxis, r"method_None"), (axes.UnionLabelPrecision, r"^(add|union)")],
         "level": "proof",
         "min_obligations": 3000,
     },
